@@ -597,13 +597,20 @@ class Balancer:
         if Balancer._max(expr) >= 1 << (len(lhs) - shift_amount):
             # the shift may drop set bits of the shifted value, so the result does not bound it
             return truism
+        op = truism.op
+        if op in Balancer._unsigned_op:
+            # a signed comparison survives only if neither side can have its sign bit set; then it is the unsigned one
+            if Balancer._max(expr) >= 1 << (len(lhs) - shift_amount - 1) or Balancer._max(rhs) >= 1 << (len(lhs) - 1):
+                return truism
+            op = Balancer._unsigned_op[op]
 
         rhs_lower = claripy.Extract(shift_amount - 1, 0, rhs)
         rhs_lower_values = claripy.backends.vsa.eval(rhs_lower, 2)
         if len(rhs_lower_values) == 1 and rhs_lower_values[0] == 0:
             # we can remove the __lshift__
 
-            return Bool(truism.op, (expr, rhs >> shift_amount))
+            # (a logical shift: >> on expressions is the arithmetic one and would smear a set top bit over the result)
+            return Bool(op, (expr, claripy.LShR(rhs, shift_amount)))
 
         return truism
 
